@@ -14,6 +14,9 @@ import (
 // opcode 701: kind start [ops] [observed]   (op 0 = NextSequenceNumber, 1 = RollOverCount)
 // opcode 703: [[r0 v r1]...]  a goroutine's recorded (RollOverCount, Next, RollOverCount) trace from the stress run
 // opcode 702: draw [ops]    NewRandomSequencer with the generator stubbed through the verif hook
+// opcode 704: start [ops]   one sequencer shared by direct callers and a Packetizer: op 0 = NextSequenceNumber,
+//             1 = RollOverCount, [2 k] = Packetize of a k-packet frame, [3 n] = GeneratePadding(n); every number
+//             handed out - through whichever door - is one step of the same counter
 // The generator runs N goroutines against one sequencer, records every call with tickets taken
 // from a global atomic counter before and after it, reconstructs the only possible linearization
 // and emits it together with the results the goroutines observed.  Running the case executes the
@@ -252,10 +255,78 @@ func emitHistory(emit func(op int, toks ...Tok), kind int, start int64, ordered 
 	emit(701, TI(int64(kind)), TI(start), ops, obs)
 }
 
+// onePerByte is a payloader that cuts its input into one-byte fragments: a k-byte sample is a k-packet frame
+type onePerByte struct{}
+
+func (onePerByte) Payload(mtu uint16, payload []byte) [][]byte {
+	var out [][]byte
+	for i := range payload {
+		out = append(out, []byte{payload[i]})
+	}
+	return out
+}
+
+func runSharedSequencer(start int64, ops []Tok) Outcome {
+	var o Outcome
+	s := rtp.NewFixedSequencer(uint16(start))
+	pz := rtp.NewPacketizer(100, 96, 0x1234, onePerByte{}, s, 90000)
+	res := VList{}
+	issued, zeros := 0, uint64(0)
+	fail := func(f string, a ...interface{}) {
+		if o.Fail == "" {
+			o.Fail = fmt.Sprintf(f, a...)
+		}
+	}
+	take := func(i int, v uint16) {
+		if want := uint16(start) + uint16(issued); v != want {
+			fail("op %d: sequence number %d handed out, the counter stands at %d (gap or duplicate)", i, v, want)
+		}
+		if v == 0 {
+			zeros++
+		}
+		issued++
+	}
+	for i, t := range ops {
+		if l, ok := t.(TList); ok {
+			k := int(tokInt(l[1]))
+			var pkts []*rtp.Packet
+			if tokInt(l[0]) == 2 {
+				pkts = pz.Packetize(make([]byte, k), 10)
+			} else {
+				pkts = pz.GeneratePadding(uint32(k))
+			}
+			vs := VList{}
+			if len(pkts) != k {
+				fail("op %d: %d packets returned, %d expected", i, len(pkts), k)
+			}
+			for _, p := range pkts {
+				take(i, p.SequenceNumber)
+				vs = append(vs, I(int64(p.SequenceNumber)))
+			}
+			res = append(res, vs)
+			continue
+		}
+		if tokInt(t) == 0 {
+			v := s.NextSequenceNumber()
+			take(i, v)
+			res = append(res, I(int64(v)))
+		} else {
+			roc := s.RollOverCount()
+			if roc != zeros {
+				fail("op %d: RollOverCount %d, but 0 has been handed out %d times", i, roc, zeros)
+			}
+			res = append(res, U(roc))
+		}
+	}
+	o.Impl, o.Nontrivial = res, true
+	o.Tags = []string{"sequencer shared with a packetizer"}
+	return o
+}
+
 func init() {
 	register(&Prop{
 		ID:       "C07",
-		Rule:     "N in {2,4,8,16} goroutines x K calls on one sequencer (binary built with -race), RollOverCount interleaved every 7th call, fixed starts over all 65536 values (thorough) / 1024 (quick) with short runs and 64 starts near the wrap with >= 3 wraps, random sequencers; 16 goroutines x 70000 (quick) / 400000 (thorough) iterations of (RollOverCount, Next, RollOverCount) over several wraps, each goroutine's trace checked for a consistent strictly increasing extended value; each observed history of the smaller runs is linearized from invocation/response tickets and re-executed sequentially on the implementation and on the model; non-trivial = history with at least one wrap or at least two goroutines",
+		Rule:     "N in {2,4,8,16} goroutines x K calls on one sequencer (binary built with -race), one sequencer shared by direct callers, Packetize frames of 1-9 packets and GeneratePadding runs placed all around the wrap, RollOverCount interleaved every 7th call, fixed starts over all 65536 values (thorough) / 1024 (quick) with short runs and 64 starts near the wrap with >= 3 wraps, random sequencers; 16 goroutines x 70000 (quick) / 400000 (thorough) iterations of (RollOverCount, Next, RollOverCount) over several wraps, each goroutine's trace checked for a consistent strictly increasing extended value; each observed history of the smaller runs is linearized from invocation/response tickets and re-executed sequentially on the implementation and on the model; non-trivial = history with at least one wrap or at least two goroutines",
 		Quick:    1100,
 		Thorough: 66000,
 		Gen: func(r *RNG, tier string, n int, emit func(op int, toks ...Tok)) {
@@ -287,6 +358,35 @@ func init() {
 			for k := 0; k < 40; k++ {
 				c := r.Fork(uint64(9000 + k))
 				emit(702, TI(int64(c.Intn(40000))), TList{TI(0), TI(1), TI(0)})
+			}
+			// the sequencer shared between direct callers and a packetizer: frames and padding runs that end
+			// before, on and after the wrap and that START on 65535, 0 and 1, RollOverCount read around each
+			for lead := 0; lead <= 6; lead++ {
+				for _, k := range []int64{1, 2, 4} {
+					for kind := int64(2); kind <= 3; kind++ {
+						ops := TList{TI(1)}
+						for j := 0; j < lead; j++ {
+							ops = append(ops, TI(0), TI(1))
+						}
+						ops = append(ops, TList{TI(kind), TI(k)}, TI(1), TI(0), TI(1), TList{TI(5 - kind), TI(3)}, TI(1), TI(0), TI(1))
+						emit(704, TI(65533), ops)
+					}
+				}
+			}
+			for k := 0; k < 60; k++ {
+				c := r.Fork(uint64(7040 + k))
+				ops := TList{}
+				for j := 0; j < 6+c.Intn(20); j++ {
+					switch c.Intn(4) {
+					case 0:
+						ops = append(ops, TI(0))
+					case 1:
+						ops = append(ops, TI(1))
+					default:
+						ops = append(ops, TList{TI(int64(2 + c.Intn(2))), TI(int64(1 + c.Intn(9)))}, TI(1))
+					}
+				}
+				emit(704, TI(int64(65536-40+c.Intn(45))%65536), ops)
 			}
 			// stress: several wraps with every goroutine reading the rollover count around each call
 			{
@@ -350,6 +450,9 @@ func init() {
 		},
 		Run: func(op int, toks []Tok) Outcome {
 			var o Outcome
+			if op == 704 {
+				return runSharedSequencer(tokInt(toks[0]), tokList(toks[1]))
+			}
 			if op == 703 {
 				// a recorded per-goroutine trace [[r0 v r1]...]: the replay of a concurrency violation
 				var tr []triple
